@@ -92,6 +92,11 @@ def gen_world(rng, prop, long_dim=False):
     layout["row_index"] = rng.weighted([("range", 4), ("permuted", 2), ("offset", 1), ("repeated", 2)])
     layout["int_values"] = rng.chance(0.15)  # whole-number values in an integer typed column
     layout["blank_headers"] = rng.chance(0.5)
+    # a table without a header line, read as if it had one: the first record ends up as the column names (flodym documents that it
+    # recognises this when the first column is a dimension whose items are complete only together with the "header")
+    layout["headerless"] = bool(prop == "C11" and wide is None and not long_dim and rng.chance(0.12))
+    if layout["headerless"]:
+        layout["header"], layout["index"] = "items", False
     # "not known" for a whole category: NaN along one complete line of the table (one item of the spread dimension, or one label
     # combination of the others) - entries like any other for to_df
     layout["nan_line"] = rng.randint(1, 10 ** 6) if (prop == "C11" and rng.chance(0.07)) else 0
@@ -106,6 +111,12 @@ def gen_world(rng, prop, long_dim=False):
         layout["int_values"] = layout["int_values"] and not layout["mimic"]["frac"]
         zeros = []
         layout["sparse"] = False
+    if layout["headerless"] and ints and not long_dim and "mimic" not in layout and rng.chance(0.5):
+        # every value is the record's own label plus a tenth: the "header" then holds a label x next to the value x.1, which is
+        # how pandas would have renamed a *repeated* header cell - and it is not one
+        layout["mimic"] = {"dim": rng.choice(ints), "frac": True}
+        layout["int_values"], layout["sparse"], layout["inf"] = False, False, 0
+        zeros = []
     return {"dims": dims, "zeros": zeros, "vseed": rng.randint(0, 10 ** 6), "layout": layout, "medium": medium,
             "consumer": consumer, "flags": flags, "storage": rng.weighted([("C", 3), ("F", 2), ("einsum_view", 2), ("sliced", 1)])}
 
@@ -128,7 +139,7 @@ def make_values(world, shape):
     if mim and shape:
         its = world["dims"][mim["dim"]]["items"]
         grid = np.indices(shape)[mim["dim"]].reshape(-1)
-        vals = np.array([float(its[g]) + (0.125 if mim["frac"] else 0.0) for g in grid])
+        vals = np.array([float(its[g]) + ((0.1 if world["layout"].get("headerless") else 0.125) if mim["frac"] else 0.0) for g in grid])
     if world["layout"].get("inf") and size >= 1:
         k1 = world["layout"]["inf"] % size
         vals[k1] = np.inf
@@ -1026,12 +1037,30 @@ class IoChan(Engine):
         name = "prm"
         path = None
         df = to_dataframe(frame, lay["index"], lay, dims)
+        headerless = False
+        if lay.get("headerless") and not world.get("safety_only") and medium in ("df", "csv") and exp.get("mode") == "return" and exp.get("why") == "complete" \
+                and len(frame.rows) >= 2 and frame.cols and frame.cols[0]["role"] == "dim" and not medium_faults \
+                and all(c["role"] in ("dim", "value") for c in frame.cols) and all(c.get("ident") == "items" for c in frame.cols if c["role"] == "dim") \
+                and not isinstance(df.index, pd.MultiIndex) and df.index.name is None and not df.attrs.get("dims_in_index"):
+            first = [str(x) for x in frame.rows[0]]
+            typed = all(d.dtype is not None for d in dims)
+            if None not in frame.rows[0] and len(set(first)) == len(first) and (medium == "df" or typed):
+                headerless = True
+                self._probe(st, "table_without_header_line_first_record_read_as_header")
+                if medium == "df":
+                    heads = [df[c].iloc[0] for c in df.columns]  # cell by cell: a row taken as a whole would be upcast to one type
+                    heads = [h.item() if isinstance(h, np.generic) else h for h in heads]
+                    df = df.iloc[1:].reset_index(drop=True)
+                    df.columns = pd.Index(heads, dtype=object)  # as read: each head keeps its own type
         read_err = next((f for f in medium_faults if f["f"] == "read_error"), None)
         trunc = next((f for f in medium_faults if f["f"] == "truncate"), None)
         intr = next((f for f in medium_faults if f["f"] == "interrupt"), None)
         if medium in ("csv", "csv_reader"):
             path = os.path.join(tmp, "table.csv")
-            self._write_table(df, path, medium)
+            if headerless:
+                df.to_csv(path, index=False, header=False)
+            else:
+                self._write_table(df, path, medium)
             if trunc:
                 with open(path, "rb") as fh:
                     blob = fh.read()
